@@ -8,7 +8,6 @@ import (
 	"sync"
 	"time"
 
-	"github.com/contiv/libOpenflow/common"
 	"github.com/contiv/libOpenflow/util"
 
 	"vh/fw"
@@ -157,10 +156,12 @@ func c11Eval(c *fw.Ctx, data any) {
 	// full duplex: frames arrive on the same connection while the producers submit (the two directions share the
 	// connection and the stream object; the race detector watches, and the inbound side must not lose anything either)
 	var inbound []byte
+	wantIn := map[uint64]int{}
 	for k := 0; k < cs.Inbound; k++ {
 		e := []byte{4, 2, 0, 8, 0x7e, 0, 0, 0}
 		binary.BigEndian.PutUint16(e[6:], uint16(k))
 		inbound = append(inbound, e...)
+		wantIn[sentinelDump(e)] = k
 	}
 	conn := sched.NewConn(inbound)
 	for k := 5; k < len(inbound); k += 13 {
@@ -278,15 +279,15 @@ func c11Eval(c *fw.Ctx, data any) {
 		viol("error", "spurious-error", "an error was published: "+fmtErrs(s.errs))
 	}
 	if cs.Inbound > 0 {
-		got := map[uint32]int{}
+		got := map[int]int{}
 		for _, d := range s.delivered {
-			if h, ok := d.Msg.(*common.Header); ok && !d.Nil {
-				got[h.Xid]++
+			if k, ok := wantIn[d.Dump]; ok && !d.Nil {
+				got[k]++
 			}
 		}
 		lost := 0
 		for k := 0; k < cs.Inbound; k++ {
-			if got[0x7e000000|uint32(k)] != 1 {
+			if got[k] != 1 {
 				lost++
 			}
 		}
